@@ -13,7 +13,7 @@ import (
 
 // R14.1 + R14.2
 var ruleExtend = &core.Rule{ID: "R14.1", Min: 6,
-	Doc: "Extend builds a fresh node from its own parameters (detector, type, extension, aliases, parent = receiver) and publishes it as [new] ++ old children (append of a one-element literal, or make(len+1), store at 0, copy to [1:]) by one store under the write lock; the node may come from a constructor whose stores are mapped back to Extend's arguments, writing nothing else; the package-level Extend calls it on the root with its own parameters in order",
+	Doc: "Extend builds a fresh node from its own parameters (detector, type, extension, aliases, parent = receiver) and publishes it as [new] ++ old children (append of a one-element literal, slices.Concat of it with the old children, or make(len+1), store at 0, copy to [1:]) by one store under the write lock; the node may come from a constructor whose stores are mapped back to Extend's arguments, writing nothing else; the package-level Extend calls it on the root with its own parameters in order",
 	Run: func(c *core.Ctx, s *core.Sink) {
 		m := getWalk(c)
 		cm := getConc(c)
@@ -590,7 +590,7 @@ func retOf(b *ssa.BasicBlock) *ssa.Return {
 
 // R15.1
 var ruleEquality = &core.Rule{ID: "R15.1", Min: 4,
-	Doc: "in Is and EqualsAny both operands of every string equality are first results of mime.ParseMediaType (directly or through a helper returning exactly that) (of the argument / of the node's type / of each candidate), except alias operands, which are compared with the normalised argument; every alias and every candidate is visited; a match returns true, exhaustion false",
+	Doc: "in Is and EqualsAny both operands of every string equality are first results of mime.ParseMediaType (directly or through a helper returning exactly that) (of the argument / of the node's type / of each candidate), except alias operands, which are compared with the normalised argument; every alias and every candidate is visited (by a loop, or by slices.ContainsFunc whose callback is judged the same way); a match returns true, exhaustion false; a comparison of two raw strings is allowed only as a fast path whose sole effect is an early true; no false depends on the raw strings",
 	Run: func(c *core.Ctx, s *core.Sink) {
 		m := getWalk(c)
 		cm := getConc(c)
